@@ -28,10 +28,12 @@ FS0 == ( <<"root">> :> D
      @@ <<"root", "dlink_in">> :> Lnk(<<"root", "sub">>)
      @@ <<"outside">> :> D
      @@ <<"outside", "secret.txt">> :> F("OUT:secret.txt")
-     @@ <<"outside", "a.txt">> :> F("OUT:a.txt") )
+     @@ <<"outside", "a.txt">> :> F("OUT:a.txt")
+     @@ <<"rootx">> :> D                                     \* a sibling whose NAME begins with the search path's name
+     @@ <<"rootx", "a.txt">> :> F("OUT:rootx/a.txt") )
 
 Comps == {"a.txt", "sub", "b.txt", "..", ".", "", "link_out.txt", "dlink_out", "secret.txt", "link_in.txt",
-          "dlink_in", "noext", "a", "outside", "uni.txt", "nul", "ctl", "long", "root"}
+          "dlink_in", "noext", "a", "outside", "uni.txt", "nul", "ctl", "long", "root", "rootx"}
 Prefixes == {"rel", "abs_root", "abs_outside", "abs_world"}
 Exts == {"none", ".txt"}
 
